@@ -21,3 +21,82 @@ CHECKS = {
         "by the monitor (cost of the implementation's assignment = verified optimum; raise iff).",
    note=LINK_NOTE + " The nonrecursive and numba solvers are tied to the verified optimum by the monitor on every generated case, not by their own refinement proof."),
 }
+
+STAT_NOTE = ("Trusted: Coq kernel + vm_compute; harness (generators, float->exact rationals via as_integer_ratio, a-priori rounding tolerance). Modelled, not verified: the numpy/scipy/pandas "
+             "primitives named in DESIGN.md §2.5 (by their mathematical meaning) and float rounding. ")
+CHECKS.update({
+ 'C03': dict(
+   text="Proof: Properties/C03.v - any two labellings of a step accepted by the sound monitor have identical total cost; optimality is invariant under the order of sources; 'drop' links "
+        "only uncontested one-source/one-destination subnets; a per-axis range is exactly a rescaling (in-range test and costs coincide). Correspondence (differential): each movie through 5 "
+        "strategies x link_iter/link/link_df_iter, permuted rows, legacy.link_iter (KDTree and hash table), pre-divided coordinates, and 'drop' (new and legacy); every labelling is replayed by "
+        "the monitor; partitions may differ only where the monitor certifies an equal-cost tie.",
+   note=LINK_NOTE + " sklearn absent: the new linker's BTree neighbour strategy is not exercised. Solver-specific refinement proofs (nonrecursive, numba) are not done: agreement rests on the monitor."),
+ 'C04': dict(
+   text="Proof: Properties/C04.v - in the model with per-linker id counters, for EVERY schedule of Start/Step operations of any number of jobs the outputs of a job equal those of its solo run "
+        "(non-interference by induction over the schedule; reproducibility corollary); the shared-counter model of the code before the fix is refuted by a witness schedule. Correspondence: "
+        "real generators (link_iter, link_df_iter, find_link_iter) and complete tp.link calls interleaved by generated schedules (witness schedule first), each job compared with its solo and "
+        "repeated run and replayed by the Coq monitor.",
+   note=LINK_NOTE + " Interleaving happens at generator yield points only (single-threaded Python); threads are not modelled."),
+ 'C11': dict(
+   text="Proof: Properties/C11.v - for the step-machine model, linking the movie with drift v*t added using the predictor pos + v*(t1 - t_seen) (applied to every live source, remembered ones "
+        "included) equals label for label linking the undrifted movie without predictor, for any movie, velocity, frame numbering and memory; NullPredict is plain linking; labels are valid for "
+        "any predictor. Correspondence: link_iter(predictor=...) on drifted lattice movies (|v| up to 1000 px/frame, numbering gaps, blank frames) replayed by the monitor both with the model's "
+        "pred_drift and against the undrifted movie; NullPredict().link_df_iter; random predictors for label uniqueness.",
+   note=LINK_NOTE + " The predictor is a user function wrapped by trackpy.predict.predictor; DriftPredict's own velocity estimation is not exercised."),
+ 'C12': dict(
+   text="Proof: Properties/C12.v - adaptive step = plain step whenever every subnet fits the adaptive limit; a subnet that fits is never split; every finally solved sub-group only contains "
+        "candidate pairs within its reduced range (no longer link can be made). Correspondence: link_iter(adaptive_stop, adaptive_step) with lowered MAX_SUB_NET_SIZE_ADAPTIVE on dense "
+        "clusters; the Coq model re-splits oversize groups itself and the monitor decides leaf by leaf admissibility and optimal cost for the leaf's range as null cost, and raise iff the model raises.",
+   note=LINK_NOTE + " 'raise exactly when' and 'each sub-group solved optimally with the reduced range' are decided by the executable model in the correspondence, not by a closed theorem (partial). "
+        "Isotropic ranges and binary-fraction steps only (exact floats)."),
+ 'C10': dict(
+   text="Proof: Properties/C10.v (2-D and 3-D, all sizes) - bandpass's result is pixel for pixel clip(thr, separable Gaussian correlation with zero border - box mean with replicated border), "
+        "input shape, exact sign condition (never negative for thr >= 0), homogeneity, commutation with transposition, the llong<=lshort guard, and the kernel is the truncated normalised "
+        "Gaussian with half-width floor(truncate*sigma+1/2). Correspondence: exact rational model vs trackpy.preprocessing.bandpass/lowpass/boxcar and masks.gaussian_kernel on generated float "
+        "images within a stated rounding tolerance; input purity by byte comparison.",
+   note=STAT_NOTE + "exp is a table from math.exp; scipy correlate1d / uniform_filter1d semantics are modelled."),
+ 'C13': dict(
+   text="Proof: Properties/C13.v - for every table, range, valid old labelling and valid in-range relinking, the model of link_partial / reconnect_traj_patch returns labels unique per frame, "
+        "two rows share a label exactly when joined (equivalence closure of the three join rules, same-side reading), rows outside keep their grouping, rows and places are preserved, a range "
+        "with an empty frame is an ordinary instance; the monitor is sound; the pre-fix function is refuted on the F4/F5 witnesses. Correspondence: corpus (F4, F5, docstring example, empty-frame "
+        "cases), random movies and a sample of the exhaustive small universe through trackpy.link_partial, model + verified monitor + independent union-find transcription.",
+   note=STAT_NOTE + "The in-range linker is taken as an arbitrary per-frame-unique labelling (its own properties are C01/C02)."),
+ 'C15': dict(
+   text="Proof: Properties/C15.v - packing: unpack(pack p) = p for parameters consistent with their modes and pack(unpack v) = v for every vector, all modes and groupings (polymorphic, unbounded); "
+        "gradient: the scalar model functions are REGENERATED from /repo's source on every run (tools/py2coq_fitfun.py -> coq/Gen/fitfun.v) and each d-function is proved to be the derivative of "
+        "its function (Coquelicot), plus the per-pixel chain rule, per-cluster sum rule and the pack-sum adjoint identity. Correspondence: vect_from_params/vect_to_params exactly on "
+        "integer-valued arrays; jacobian vs central differences of the residual through FitFunctions.",
+   note=STAT_NOTE + "Axioms (Print Assumptions, calculus theorems only): ClassicalDedekindReals.sig_forall_dec, sig_not_dec, Classical_Prop.classic, FunctionalExtensionality.functional_extensionality_dep "
+        "(Coq standard library real numbers). The final end-to-end assembly of the jacobian is covered numerically, not by a theorem; safe_exp's underflow cut is not modelled.",
+   technique="translator from Python source to Coq (regenerated per run) + machine-checked derivative proofs (Coquelicot) + correspondence run"),
+ 'C16': dict(
+   text="Proof (partial): Properties/C16.v - the bounds box is exactly the intersection of requested and default intervals; default bounds keep positions within the mask radius and "
+        "signal/size/background positive; for an arbitrary optimiser a failed unit keeps its input values with cost NaN and units do not affect each other; a fit reported successful lies "
+        "within all bounds under the stated SLSQP contract; the monitor is sound. Correspondence/monitor on real refine_leastsq runs (out-of-image starts, NaN parameters, absurd feasible bounds, "
+        "non-convergent starts, clusters); accuracy on exact-model images is monitored only.",
+   note=STAT_NOTE + "SLSQP enters as a Section variable assumed only to return a point of the box when it reports success. No theorem is possible for 'no other exception type escapes' and for the "
+        "0.1 px accuracy sentence: both are monitored. Infeasible (empty) boxes and non-finite positions are argument errors outside the property."),
+ 'C17': dict(
+   text="Proof: Properties/C17.v - for every trajectory with distinct frames both msd paths (FFT identity with the S1 recurrence; gap path) return exactly the mean over all pairs n frames "
+        "apart, indexed by lag and lag/fps, NaN iff no pair, equal under any row permutation and gap pattern; imsd per particle; emsd = sum N_i m_i / sum N_i over contributing particles; the "
+        "pre-fix code is refuted on the F6/F7/F11 witnesses. Correspondence: exact rational model and monitor vs trackpy.motion.msd/imsd/emsd within a stated tolerance, NaN pattern and index exactly.",
+   note=STAT_NOTE + "np.fft is modelled as the exact autocorrelation."),
+ 'C18': dict(
+   text="Proof: Properties/C18.v - compute_drift is the running sum of the mean displacement over all same-particle pairs one frame apart, independent of row order; subtract_drift subtracts "
+        "exactly that curve per frame and touches nothing else; re-measured drift is zero and a rigid common motion is removed under the property's premise; monitor sound. Correspondence: "
+        "exact rational model vs trackpy on gapped/shuffled tables (2-D/3-D); caller-table immutability (data, index values and names) by comparison.",
+   note=STAT_NOTE + "One position column at a time (pandas applies the same column-independent pipeline to each)."),
+ 'C19': dict(
+   text="Proof (partial): Properties/C19.v - cluster: same id iff connected by a chain of features within separation, sizes = component sizes, ids never reused across frames, monitor sound; "
+        "proximity = distance to the nearest other feature; g(r) = corrected pair histogram / (density*N*dr), invariant under permutation and (given boundary) translation; 2-D edge correction: "
+        "the excluded-angle interval lemmas; 3-D: consistency identities only. Correspondence: exact models vs trackpy.static on lattice point sets; arclen_2d_bounded / area_3d_bounded against "
+        "independent geometric references.",
+   note=STAT_NOTE + "The full 2-D inclusion-exclusion and the 3-D closed forms as areas are covered numerically only. Geometry theorems depend on the Coq standard library real-number axioms "
+        "(sig_forall_dec, sig_not_dec, classic, functional_extensionality_dep)."),
+ 'C20': dict(
+   text="Proof: Properties/C20.v - filter_stubs / filter_clusters (modelled as pandas' groupby-filter algorithm) keep exactly the rows of qualifying trajectories with order and values "
+        "preserved; for ANY pipeline length of producer stages every consumer accepts the result (finite index-layout algebra; exactly five layouts reachable), and producers give the same rows "
+        "as on the default-indexed table; the pinned code is refuted on exactly the eight F9 pairs. Correspondence: EXHAUSTIVE producer pipelines up to depth 3 x every consumer on real pandas "
+        "tables (accept/raise, layout, numbers vs default-indexed), random tables for the filters.",
+   note=STAT_NOTE + "pandas' label-ambiguity rule and groupby-filter algorithm are modelled; that consumers never read the index is established by the exhaustive correspondence."),
+})
